@@ -288,7 +288,7 @@ def check_format_input_scalar(
         f"Instead received {inp!r}."
     )
 
-    if not isinstance(inp, numbers.Number):
+    if not isinstance(inp, numbers.Real):
         raise MagpylibBadUserInput(ERR_MSG)
 
     inp = float(inp)
